@@ -250,6 +250,12 @@ theorem path_inv {p : Pub} {q : Peer} (inv : PeerInv p q) (up : Bool) :
     · exact inv
     · apply fetch_inv; exact ⟨inv.le, inv.set, inv.next⟩
 
+theorem svsReceive_inv {p : Pub} {q : Peer} (inv : PeerInv p q) (high : UInt64) : PeerInv p (q.svsReceive high) := by
+  unfold Peer.svsReceive
+  split
+  · exact sync_inv (q := { q with svs := high }) ⟨inv.le, inv.set, inv.next⟩ high
+  · exact inv
+
 theorem peerInv_pub {p p' : Pub} {q : Peer} (inv : PeerInv p q) (hle : p.seq ≤ p'.seq)
     (hold : ∀ k, k ≤ p.seq → setAtL p'.log k = setAtL p.log k) : PeerInv p' q :=
   ⟨UInt64.le_trans inv.le hle, by rw [hold _ inv.le]; exact inv.set, inv.next⟩
@@ -261,7 +267,7 @@ inductive LogEvent where
   | path (b : Nat) (up : Bool)
   | announce (name : Nat)
   | withdraw (name : Nat)
-  /-- peer `b` learns (from the sync group) that the publisher's sequence number is `high` -/
+  /-- a Sync Interest carrying the publisher's sequence number `high` reaches peer `b`'s SvSync -/
   | sync (b : Nat) (high : UInt64)
   /-- the outstanding Interest of peer `b` is answered from the publisher's repo -/
   | deliver (b : Nat)
@@ -281,7 +287,7 @@ def LogSys.step (s : LogSys) : LogEvent → LogSys
   | .announce n => { s with pub := s.pub.announce n }
   | .withdraw n => { s with pub := s.pub.withdraw n }
   | .sync b high => match s.peers[b]? with
-    | some q => { s with peers := s.peers.set b (q.sync high) }
+    | some q => { s with peers := s.peers.set b (q.svsReceive high) }
     | none => s
   | .deliver b => match s.peers[b]? with
     | some q => match q.deliver s.pub with
@@ -343,7 +349,7 @@ theorem sysInv_step {s : LogSys} (inv : SysInv s) (ev : LogEvent) (hw : s.pub.se
     cases hq : s.peers[b]? with
     | none => exact ⟨inv, Nat.le_succ _⟩
     | some q =>
-      refine ⟨setInv b _ (fun _ _ => sync_inv (inv.peers q (List.mem_of_getElem? hq)) high) q hq, by simp⟩
+      refine ⟨setInv b _ (fun _ _ => svsReceive_inv (inv.peers q (List.mem_of_getElem? hq)) high) q hq, by simp⟩
   | deliver b =>
     simp only [LogSys.step]
     cases hq : s.peers[b]? with
